@@ -19,8 +19,9 @@
        `phased` flag; PS and PQ values (None = '.' or key absent); HP as pysam returns it (None = key
        absent, else the tuple, whose items are 'b-h', '.', None or unparsable); every other FORMAT
        field with a non-missing value as (key token, value token) in FORMAT order.
-   The current code's defective rules are isolated in the record `rules` (cur_rules / fix_rules) and
-   in the decoder guard (cur_guard / fix_guard).
+   The rules that were defective are isolated in the record `rules` and in the decoder guard:
+   fix_rules / fix_guard model the code as it is (after the repairs b86843e, 3231061, 9ec9805 in /repo);
+   orig_rules / orig_guard model the code before them and are kept for the refutation witnesses of C09.
    Definitions only: model + executable specification side, no lemmas. *)
 From Coq Require Import ZArith List Bool Arith.
 Import ListNotations.
@@ -178,16 +179,16 @@ Definition unphase_call (c : call) : call :=
               end
   end.
 
-Definition cur_rm (tg : tagk) (c : call) : call :=
+Definition orig_rm (tg : tagk) (c : call) : call :=
   match tg with TagPS => unphase_call c | TagHP => c end.
 
-(* repaired: for either tag remove every phase statement of the call (GT unphased and sorted, PS, HP, PQ) *)
+(* the code now: for either tag remove every phase statement of the call (GT unphased and sorted, PS, HP, PQ) *)
 Definition clear_hp (c : call) : call :=
   match hp c with None => c | Some _ => set_hp c (Some [HPdot]) end.
 Definition fix_rm (tg : tagk) (c : call) : call :=
   set_pq (clear_hp (set_ps (unphase_call c) None)) None.
 
-Definition cur_rules : rules := mkRules cur_rm as_vector [HPnone].
+Definition orig_rules : rules := mkRules orig_rm as_vector [HPnone].
 Definition fix_rules : rules := mkRules fix_rm (fun g => g) [HPdot].
 
 (* --------------------------------------------------------------------- writer: one target call *)
@@ -608,11 +609,14 @@ Fixpoint hp_pick (g : list allele) (order : list Z) (i : nat) (n : nat) : res (l
     end
   end.
 
-(* guards of _extract_HP_phase: current `hp is None or hp == (".",)`; repaired: any None or "." *)
-Definition cur_guard (l : list hpitem) : bool :=
+(* guards of _extract_HP_phase: originally `hp is None or hp == (".",)`; now: empty, or any None or "." *)
+Definition orig_guard (l : list hpitem) : bool :=
   match l with [HPdot] => true | _ => false end.
 Definition fix_guard (l : list hpitem) : bool :=
-  existsb (fun x => match x with HPdot | HPnone => true | _ => false end) l.
+  match l with
+  | [] => true                                (* `not hp`: the empty tuple pysam returns for a cut-off field *)
+  | _ => existsb (fun x => match x with HPdot | HPnone => true | _ => false end) l
+  end.
 
 Definition decode_HP (guard : list hpitem -> bool) (c : call) : res (option dphase) :=
   match hp c with
